@@ -7,7 +7,7 @@
 //! distinct) and after it was dropped (live == before, no double drop);
 //! (2) statically typed grammars over drop-tracked *tokens* on slices and streams: originals are never
 //! dropped by the parser, clones are balanced;
-//! (2b) 9 statically typed grammars whose outputs are ZERO-SIZED values with a destructor (arrays via collect_exactly and group, Vec of zero-sized elements, memoized, folds, nested) x all words over {{a,b,c}}: live counter while the result is alive == instances held by the output, back to its previous value after the drop. (2c) 29 statically typed parsers built from public combinators outside the grammar AST whose values are drop-tracked (collect_exactly into Box<[T;N]> and nested boxes; collect into LinkedList, VecDeque, BTreeMap, HashMap, HashSet, Box<Vec>, Cell, RefCell, (), count, enumerate; Pratt tables with tracked operands and tracked operator values; then_with_ctx / ignore_with_ctx / with_ctx with a tracked context cloned by readers; to(); into_iter() with left-over items; unwrapped(); try_map / validate; and_is / not / rewind over value-producing parsers; foldr, foldl_with; skip_until / skip_then_retry_until / via_parser recovery with value-building fallbacks; nested_in; lazy; tuple and array groups) x all words <= {} over {{a,b,x,-,+,;}}, parse and check, same ledger oracle. (3) the same drivers under Miri (leak check, double free, uninitialised reads) and ASan+LSan.
+//! (2b) 10 statically typed grammars whose outputs are ZERO-SIZED values with a destructor (arrays via collect_exactly and group, Vec of zero-sized elements, memoized, folds, nested) x all words over {{a,b,c}}: live counter while the result is alive == instances held by the output, back to its previous value after the drop. (2c) 29 statically typed parsers built from public combinators outside the grammar AST whose values are drop-tracked (collect_exactly into Box<[T;N]> and nested boxes; collect into LinkedList, VecDeque, BTreeMap, HashMap, HashSet, Box<Vec>, Cell, RefCell, (), count, enumerate; Pratt tables with tracked operands and tracked operator values; then_with_ctx / ignore_with_ctx / with_ctx with a tracked context cloned by readers; to(); into_iter() with left-over items; unwrapped(); try_map / validate; and_is / not / rewind over value-producing parsers; foldr, foldl_with; skip_until / skip_then_retry_until / via_parser recovery with value-building fallbacks; nested_in; lazy; tuple and array groups) x all words <= {} over {{a,b,x,-,+,;}}, parse and check, same ledger oracle. (3) the same drivers under Miri (leak check, double free, uninitialised reads) and ASan+LSan.
 
 use crate::classes;
 use crate::drv::*;
@@ -32,7 +32,7 @@ pub fn basis() -> Basis {
     b.ctors.push(ctor(1, |mut k| G::un(Op::Memo, k.remove(0))));
     b.ctors.push(ctor(3, |k| G::new(Op::GroupArr, k)));
     b.ctors.push(ctor(3, |k| G::new(Op::Group, k)));
-    for (lo, hi, flav) in [(0u8, None, Flav::Arr2), (0, None, Flav::Arr3), (1, Some(2u8), Flav::Arr3), (0, Some(1), Flav::Arr2), (0, None, Flav::Vec), (2, Some(3), Flav::Vec)] {
+    for (lo, hi, flav) in [(0u8, None, Flav::Arr2), (0, None, Flav::Arr3), (1, Some(2u8), Flav::Arr3), (0, Some(1), Flav::Arr2), (0, None, Flav::Vec), (2, Some(3), Flav::Vec), (3, None, Flav::Arr2), (4, Some(5), Flav::Arr3), (3, Some(3), Flav::Arr2)] {
         b.ctors.push(ctor(1, move |mut k| G::rep(k.remove(0), lo, hi, flav)));
     }
     b
@@ -44,7 +44,7 @@ pub fn enum_basis() -> Basis {
     b.ctors.push(ctor(2, |k| G::new(Op::GroupArr, k)));
     b.ctors.push(ctor(3, |k| G::new(Op::GroupArr, k)));
     b.ctors.push(ctor(2, |k| G::new(Op::Group, k)));
-    for (lo, hi, flav) in [(0u8, None, Flav::Arr2), (0, None, Flav::Arr3), (0, Some(2u8), Flav::Arr3), (0, None, Flav::Vec), (0, None, Flav::Unit), (1, Some(2), Flav::Vec)] {
+    for (lo, hi, flav) in [(0u8, None, Flav::Arr2), (0, None, Flav::Arr3), (0, Some(2u8), Flav::Arr3), (0, None, Flav::Vec), (0, None, Flav::Unit), (1, Some(2), Flav::Vec), (3, None, Flav::Arr2), (4, None, Flav::Arr3)] {
         b.ctors.push(ctor(1, move |mut k| G::rep(k.remove(0), lo, hi, flav)));
     }
     b.ctors.push(ctor(2, |mut k| {
@@ -363,6 +363,7 @@ fn zst_parsers<'s>() -> Vec<(&'static str, Boxed<'s, 's, &'s str, ZOut, EZ<'s>>)
         ("any().map(Z).repeated().collect::<Vec<Z>>() (zero-sized elements)", z().repeated().collect::<Vec<Z>>().map(|v| keep(v.len(), v)).boxed()),
         ("za.memoized().then(just('b')).or(za.memoized().then(just('a'))).repeated().collect()", za().memoized().then(just('b')).or(za().memoized().then(just('a'))).repeated().collect::<Vec<(Z, char)>>().map(|v| keep(v.len(), v)).boxed()),
         ("za.foldl(any().map(Z).repeated(), keep the newer)", za().foldl(z().repeated(), |_old, new| new).map(|x| keep(1, x)).boxed()),
+        ("just('a').map(Z).repeated().at_least(3).collect_exactly::<[Z;2]>().or_not().then(any().repeated())", za().repeated().at_least(3).collect_exactly::<[Z; 2]>().or_not().then_ignore(any().repeated()).map(|o| keep(o.as_ref().map(|_| 2).unwrap_or(0), o)).boxed()),
         ("collect_exactly::<[Z;2]> inside a repetition that abandons its last iteration", z().repeated().collect_exactly::<[Z; 2]>().repeated().collect::<Vec<[Z; 2]>>().then_ignore(any().or_not()).map(|v| keep(v.len() * 2, v)).boxed()),
     ]
 }
@@ -514,7 +515,7 @@ pub fn run(cx: &RunCtx) -> i32 {
         cx,
         acc,
         Finish {
-            rule: format!("(1) every grammar with <= {size} nodes over a class with group([..;2|3]), tuple groups, collect_exactly::<[_;2|3]> (repeated and separated_by), Vec / unit repetitions, folds, lookahead, filter/try_map, via_parser recovery and memoized() x every input <= {max_len} over {{a,b,é}}, and {n_rand} random grammars of 4..13 nodes (also validate, all recovery strategies) x 6 inputs; every node's output carries a fresh drop-tracked value created by a map(); parse and check. Ledger oracle: while the ParseResult is alive the live tracked instances are exactly those reachable from the output (each once, none already dropped); after dropping it the live count is back to its value before the call; no instance is dropped twice. (2) 11 statically typed grammars whose outputs contain the tokens themselves (Vec, [T;2], [T;3], group of an array, folds, select, memoized, recovery) over drop-tracked tokens x all {nw} words <= {} over {{a,b,c}} on &[T] (originals must stay alive, clones balanced) and on Stream (everything balanced once the stream is gone). (2b) 9 statically typed grammars whose outputs are ZERO-SIZED values with a destructor (arrays via collect_exactly and group, Vec of zero-sized elements, memoized, folds, nested) x all words over {{a,b,c}}: live counter while the result is alive == instances held by the output, back to its previous value after the drop. (2c) 29 statically typed parsers built from public combinators outside the grammar AST whose values are drop-tracked (collect_exactly into Box<[T;N]> and nested boxes; collect into LinkedList, VecDeque, BTreeMap, HashMap, HashSet, Box<Vec>, Cell, RefCell, (), count, enumerate; Pratt tables with tracked operands and tracked operator values; then_with_ctx / ignore_with_ctx / with_ctx with a tracked context cloned by readers; to(); into_iter() with left-over items; unwrapped(); try_map / validate; and_is / not / rewind over value-producing parsers; foldr, foldl_with; skip_until / skip_then_retry_until / via_parser recovery with value-building fallbacks; nested_in; lazy; tuple and array groups) x all words <= {} over {{a,b,x,-,+,;}}, parse and check, same ledger oracle. (3) the same drivers under Miri with leak checking (and ASan+LSan in the thorough tier). Non-trivial: runs in which values were created and dropped on abandoned / internal paths; token runs in which the parser cloned tokens", cx.t(4, 6), cx.t(4, 5)),
+            rule: format!("(1) every grammar with <= {size} nodes over a class with group([..;2|3]), tuple groups, collect_exactly::<[_;2|3]> (repeated and separated_by), Vec / unit repetitions, folds, lookahead, filter/try_map, via_parser recovery and memoized() x every input <= {max_len} over {{a,b,é}}, and {n_rand} random grammars of 4..13 nodes (also validate, all recovery strategies) x 6 inputs; every node's output carries a fresh drop-tracked value created by a map(); parse and check. Ledger oracle: while the ParseResult is alive the live tracked instances are exactly those reachable from the output (each once, none already dropped); after dropping it the live count is back to its value before the call; no instance is dropped twice. (2) 11 statically typed grammars whose outputs contain the tokens themselves (Vec, [T;2], [T;3], group of an array, folds, select, memoized, recovery) over drop-tracked tokens x all {nw} words <= {} over {{a,b,c}} on &[T] (originals must stay alive, clones balanced) and on Stream (everything balanced once the stream is gone). (2b) 10 statically typed grammars whose outputs are ZERO-SIZED values with a destructor (arrays via collect_exactly and group, Vec of zero-sized elements, memoized, folds, nested) x all words over {{a,b,c}}: live counter while the result is alive == instances held by the output, back to its previous value after the drop. (2c) 29 statically typed parsers built from public combinators outside the grammar AST whose values are drop-tracked (collect_exactly into Box<[T;N]> and nested boxes; collect into LinkedList, VecDeque, BTreeMap, HashMap, HashSet, Box<Vec>, Cell, RefCell, (), count, enumerate; Pratt tables with tracked operands and tracked operator values; then_with_ctx / ignore_with_ctx / with_ctx with a tracked context cloned by readers; to(); into_iter() with left-over items; unwrapped(); try_map / validate; and_is / not / rewind over value-producing parsers; foldr, foldl_with; skip_until / skip_then_retry_until / via_parser recovery with value-building fallbacks; nested_in; lazy; tuple and array groups) x all words <= {} over {{a,b,x,-,+,;}}, parse and check, same ledger oracle. (3) the same drivers under Miri with leak checking (and ASan+LSan in the thorough tier). Non-trivial: runs in which values were created and dropped on abandoned / internal paths; token runs in which the parser cloned tokens", cx.t(4, 6), cx.t(4, 5)),
             exhaustive: false,
             exhaustive_note: format!("grammars <= {size} nodes of the enumeration class x inputs <= {max_len}: complete"),
             assumptions: vec![
